@@ -4,6 +4,17 @@ import GorumsV.Tie.C02
 /-! Tie for C08: the loop parameters of the tree (Tie/C02) and the connection facts (Tie/C09); the wake-up sets of the
     blocking statements (`enqueue`'s select with the request context, the reply loops, the one-way waits) are pinned by
     the digests of Tie/C08Skel.lean; engine ctx measures the return time of every call type on the real code. -/
+namespace GorumsV.Tie.C08w
+open GorumsV
+/-- the waits for send confirmations of Multicast and Unicast have a context case that ends the wait
+    (`ReplyLoop.waitLoop` with `waitsCtx = true`: theorem `oneway_ctx_returns`) -/
+theorem oneway_waitsCtx_good : Generated.mcast_waitsCtx = true ∧ Generated.ucast_waitsCtx = true := by decide
+/-- the hand-off of a request to the node's sender is one select over the channel's parent context, the caller's
+    context (which answers the request with the context's error and returns) and the send queue (the repair of
+    defect D2: a call queued behind a busy or stuck sender returns when its context ends) -/
+theorem enqueue_waitsCtx_good : Generated.ch_enqueueWaitsCtx = true := by decide
+end GorumsV.Tie.C08w
+
 section Audit
 open GorumsV.C08
 #print axioms router_lock_available_unless_backpressure
@@ -15,4 +26,10 @@ open GorumsV.C08
 #print axioms GorumsV.Tie.C02.qc_ctxCause_good
 #print axioms GorumsV.Tie.C02.async_ctxCause_good
 #print axioms GorumsV.Tie.C09.isConnected_good
+#print axioms GorumsV.Tie.C08w.oneway_waitsCtx_good
+#print axioms GorumsV.Tie.C08w.enqueue_waitsCtx_good
+#print axioms GorumsV.C08.oneway_ctx_returns
+#print axioms GorumsV.C08.oneway_needs_ctx_case
+#print axioms GorumsV.C08.oneway_waits_for_confirmations
+#print axioms GorumsV.C08.oneway_nosendwaiting
 end Audit
